@@ -5,7 +5,6 @@
 //! are preserved; CPython itself is not modelled.  Capacity limits are model bounds: exceeding
 //! them is reported through `MODEL_BOUND_EXCEEDED`, which harnesses assert to be false.
 #![allow(clippy::all)]
-use std::cell::Cell;
 use std::marker::PhantomData;
 
 pub use pyo3_macros::{pyclass, pyfunction, pymethods, pymodule};
@@ -69,11 +68,16 @@ pub enum Leaf {
     Bytes(Blob),
 }
 
+/// Handle of an object in the object table `OBJS` (objects live out of line so that moving a `Bound`, a `Py` or a
+/// `Result<Bound, _>` is one machine word: by-value nesting made CBMC copy ~300-octet enums at every move).
+pub type ObjId = usize;
+
 #[derive(Clone, Copy, Debug, PartialEq)]
 pub enum Item {
     /// the Python `None` object as a list element
     NoneMarker,
-    Pair(Leaf, Leaf),
+    /// a pair of LEAF object ids
+    Pair(ObjId, ObjId),
 }
 
 #[derive(Clone, Copy, Debug, PartialEq)]
@@ -91,8 +95,8 @@ impl Seq {
 #[derive(Clone, Copy, Debug, PartialEq)]
 pub enum Obj {
     Leaf(Leaf),
-    /// a 2-tuple of leaves: `(oid, value)`
-    Pair(Leaf, Leaf),
+    /// a 2-tuple of leaf objects: `(oid, value)`, by id
+    Pair(ObjId, ObjId),
     List(Seq),
     /// insertion-ordered; `set_item` on an equal key replaces the value in place
     Dict(Seq),
@@ -103,6 +107,47 @@ impl Obj {
         match self {
             Obj::Leaf(l) => Some(*l),
             _ => None,
+        }
+    }
+}
+
+pub const OBJ_N: usize = 14;
+pub static mut OBJS: [Obj; OBJ_N] = [Obj::Leaf(Leaf::None); OBJ_N];
+pub static mut OBJ_NEXT: usize = 0;
+
+pub fn alloc_obj(o: Obj) -> ObjId {
+    unsafe {
+        let i = OBJ_NEXT;
+        if i < OBJ_N {
+            OBJS[i] = o;
+            OBJ_NEXT = i + 1;
+            i
+        } else {
+            bound_exceeded();
+            0
+        }
+    }
+}
+pub fn obj_at(i: ObjId) -> Obj {
+    unsafe {
+        if i < OBJ_N {
+            OBJS[i]
+        } else {
+            Obj::Leaf(Leaf::None)
+        }
+    }
+}
+/// Leaf stored at `i` (None object if `i` is not a leaf).
+pub fn leaf_at(i: ObjId) -> Leaf {
+    match obj_at(i) {
+        Obj::Leaf(l) => l,
+        _ => Leaf::None,
+    }
+}
+fn set_obj(i: ObjId, o: Obj) {
+    unsafe {
+        if i < OBJ_N {
+            OBJS[i] = o;
         }
     }
 }
@@ -128,7 +173,7 @@ impl<'py> Python<'py> {
     }
     #[allow(non_snake_case)]
     pub fn None(self) -> PyObject {
-        Py(Obj::Leaf(Leaf::None), PhantomData)
+        Py(alloc_obj(Obj::Leaf(Leaf::None)), PhantomData)
     }
     /// Harness-side: obtain a token without a closure.
     pub fn assume_gil() -> Python<'static> {
@@ -139,14 +184,17 @@ impl<'py> Python<'py> {
 pub struct PyAny;
 
 #[repr(transparent)]
-pub struct Bound<'py, T>(pub Cell<Obj>, PhantomData<(&'py (), T)>);
+pub struct Bound<'py, T>(pub ObjId, PhantomData<(&'py (), T)>);
 
 impl<'py, T> Bound<'py, T> {
     pub fn from_obj(o: Obj) -> Self {
-        Bound(Cell::new(o), PhantomData)
+        Bound(alloc_obj(o), PhantomData)
     }
     pub fn obj(&self) -> Obj {
-        self.0.get()
+        obj_at(self.0)
+    }
+    pub fn id(&self) -> ObjId {
+        self.0
     }
     pub fn into_any(self) -> Bound<'py, PyAny> {
         Bound(self.0, PhantomData)
@@ -156,13 +204,14 @@ impl<'py, T> Bound<'py, T> {
         unsafe { &*(self as *const Bound<'py, T> as *const Bound<'py, PyAny>) }
     }
     pub fn unbind(self) -> Py<T> {
-        Py(self.0.get(), PhantomData)
+        Py(self.0, PhantomData)
     }
 }
 
 impl<'py, T> Clone for Bound<'py, T> {
+    /// a new reference to the same object
     fn clone(&self) -> Self {
-        Bound(Cell::new(self.0.get()), PhantomData)
+        Bound(self.0, PhantomData)
     }
 }
 
@@ -181,36 +230,39 @@ impl<'a, 'py, T> std::ops::Deref for Borrowed<'a, 'py, T> {
     }
 }
 
-pub struct Py<T>(pub Obj, PhantomData<T>);
+pub struct Py<T>(pub ObjId, PhantomData<T>);
 pub type PyObject = Py<PyAny>;
 
 impl<T> Py<T> {
     pub fn obj(&self) -> Obj {
+        obj_at(self.0)
+    }
+    pub fn id(&self) -> ObjId {
         self.0
     }
 }
 
 impl<'py, T> From<Bound<'py, T>> for Py<PyAny> {
     fn from(b: Bound<'py, T>) -> Self {
-        Py(b.0.get(), PhantomData)
+        Py(b.0, PhantomData)
     }
 }
 
 pub trait HasObj {
-    fn get_obj(&self) -> Obj;
+    fn get_id(&self) -> ObjId;
 }
 impl<'py, T> HasObj for Bound<'py, T> {
-    fn get_obj(&self) -> Obj {
-        self.0.get()
+    fn get_id(&self) -> ObjId {
+        self.0
     }
 }
 impl<'a, 'py, T> HasObj for Borrowed<'a, 'py, T> {
-    fn get_obj(&self) -> Obj {
-        self.0 .0.get()
+    fn get_id(&self) -> ObjId {
+        self.0 .0
     }
 }
 impl<T> HasObj for Py<T> {
-    fn get_obj(&self) -> Obj {
+    fn get_id(&self) -> ObjId {
         self.0
     }
 }
@@ -368,13 +420,7 @@ pub mod types {
         /// Only 2-tuples of leaves are modelled (the repository builds nothing else).
         pub fn new<'py>(_py: Python<'py>, elements: Vec<Bound<'py, PyAny>>) -> PyResult<Bound<'py, PyTuple>> {
             let o = if elements.len() == 2 {
-                match (elements[0].obj(), elements[1].obj()) {
-                    (Obj::Leaf(a), Obj::Leaf(b)) => Obj::Pair(a, b),
-                    _ => {
-                        bound_exceeded();
-                        Obj::Leaf(Leaf::None)
-                    }
-                }
+                Obj::Pair(elements[0].id(), elements[1].id())
             } else {
                 bound_exceeded();
                 Obj::Leaf(Leaf::None)
@@ -400,8 +446,8 @@ pub mod types {
             I: IntoPyObject<'py>,
             I::Error: Into<PyErr>,
         {
-            let o = item.into_pyobject(Python(PhantomData)).map_err(Into::into)?.get_obj();
-            let it = match o {
+            let id = item.into_pyobject(Python(PhantomData)).map_err(Into::into)?.get_id();
+            let it = match obj_at(id) {
                 Obj::Leaf(Leaf::None) => Item::NoneMarker,
                 Obj::Pair(a, b) => Item::Pair(a, b),
                 _ => {
@@ -409,25 +455,25 @@ pub mod types {
                     Item::NoneMarker
                 }
             };
-            if let Obj::List(mut s) = self.0.get() {
+            if let Obj::List(mut s) = obj_at(self.0) {
                 if s.n < SEQ_CAP {
                     s.items[s.n] = it;
                     s.n += 1;
                 } else {
                     bound_exceeded();
                 }
-                self.0.set(Obj::List(s));
+                set_obj(self.0, Obj::List(s));
             }
             Ok(())
         }
         pub fn is_empty(&self) -> bool {
-            match self.0.get() {
+            match obj_at(self.0) {
                 Obj::List(s) => s.n == 0,
                 _ => true,
             }
         }
         pub fn len(&self) -> usize {
-            match self.0.get() {
+            match obj_at(self.0) {
                 Obj::List(s) => s.n,
                 _ => 0,
             }
@@ -443,23 +489,18 @@ pub mod types {
             V::Error: Into<PyErr>,
         {
             let py = Python(PhantomData);
-            let k = key.into_pyobject(py).map_err(Into::into)?.get_obj();
-            let v = value.into_pyobject(py).map_err(Into::into)?.get_obj();
-            let (k, v) = match (k, v) {
-                (Obj::Leaf(k), Obj::Leaf(v)) => (k, v),
-                _ => {
-                    bound_exceeded();
-                    return Ok(());
-                }
-            };
-            if let Obj::Dict(mut s) = self.0.get() {
+            let k = key.into_pyobject(py).map_err(Into::into)?.get_id();
+            let v = value.into_pyobject(py).map_err(Into::into)?.get_id();
+            let kl = leaf_at(k);
+            if let Obj::Dict(mut s) = obj_at(self.0) {
                 let mut i = 0;
                 let mut found = false;
                 while i < SEQ_CAP {
                     if i < s.n {
                         if let Item::Pair(ek, _) = s.items[i] {
-                            if ek == k && !found {
-                                s.items[i] = Item::Pair(k, v);
+                            // keys are str objects: equal keys = equal text
+                            if !found && leaf_at(ek) == kl {
+                                s.items[i] = Item::Pair(ek, v);
                                 found = true;
                             }
                         }
@@ -474,7 +515,7 @@ pub mod types {
                         bound_exceeded();
                     }
                 }
-                self.0.set(Obj::Dict(s));
+                set_obj(self.0, Obj::Dict(s));
             }
             Ok(())
         }
@@ -522,7 +563,7 @@ impl<'py, T> IntoPyObject<'py> for Py<T> {
     type Output = Bound<'py, T>;
     type Error = std::convert::Infallible;
     fn into_pyobject(self, _py: Python<'py>) -> Result<Self::Output, Self::Error> {
-        Ok(Bound::from_obj(self.0))
+        Ok(Bound(self.0, PhantomData))
     }
 }
 
